@@ -14,7 +14,8 @@ CLAIMS = {
         technique="static analysis: abstract interpretation of the converter bodies to power-law normal forms; identities decided by normal-form algebra",
         text=("Every converter in atmos_conversions.py and _astronomy.py is reduced, from its AST, to an exact power-law "
               "normal form; inverse pairs (both directions), composites, all stated exponents, the factor-100 rule, "
-              "proportionality to area and time, the single-layer 0.314 relations, the axis argument and the band table "
+              "proportionality to area and time, the single-layer 0.314 relations, the axis argument, the band table and the absence of integer "
+              "powers of possibly-integer profiles (overflow) "
               "are decided as identities between normal forms - for every positive argument, not sampled ones."),
         note=("Trusted: CPython ast; the PLF algebra in sa/plf.py; floating-point rounding of the library is excluded; "
               "published-constant relation (0.0581 vs 0.314) checked to 4e-3 as the property allows.")),
@@ -30,7 +31,7 @@ CLAIMS.update({
               "memoisation and mutated mutable defaults are excluded structurally. Batch clause: for the documented trailing-axes functions "
               "(Fourier wrappers, temporal power spectrum, profile integrals) nothing on the backward slice of the result reads a leading "
               "axis (shape index >= 0, len, size, non-negative or all-axes axis argument, subscripts not starting with an Ellipsis); the "
-              "ndim-dispatching centroiders are decided by C15."),
+              "rank-dispatching image functions take no whole-stack reduction on their stack path (per-item results); the centroid moments are decided by C15."),
         note=("Trusted: CPython ast; the explicit numpy view / in-place tables in sa/fx.py; library calls outside those tables do not "
               "modify their arguments; parameters documented as int/float/str/bool/tuple are immutable scalars. A positive control "
               "(embedded snippet) must fire on every run.")),
@@ -41,7 +42,7 @@ CLAIMS.update({
               "variants) for every length N and batch shape: inverse shifts, axes sets, product of scales equal to 1 at "
               "delta_f = 1/(N delta), canonical ifftshift/fftshift centring (also when written as numpy.roll: parity analysis of the roll "
               "amount); what aotools.<name> binds to is decided by replaying "
-              "the package's imports. Quadrature accuracy of the DFT is not decided. Known findings: the real-input variants."),
+              "the package's imports; the grid-spacing factor is applied to the transform's output, along the transformed (trailing) axes. Quadrature accuracy of the DFT is not decided. Known findings: the real-input variants."),
         note="Trusted: numpy.fft normalisation and shift definitions; 2-D wrappers are used on square trailing axes."),
     "C10": dict(
         category="proof", design="DESIGN.md §3 C10",
@@ -92,14 +93,15 @@ CLAIMS.update({
               "identities; optimal grouping: the split->group conversion tiles [0, N) into len(splits)+1 contiguous groups for every "
               "number of splits including 0; GCTM: moments, least-squares objective, target, starting point, bounds and the mapping of the "
               "optimiser's answer back to heights/strengths equal their definitions as normal forms, and every callback handed to the "
-              "optimiser is finite on the feasible box (exponent lower-bound analysis); allocation dtypes; no hidden state. Optimality of "
+              "optimiser is finite on the feasible box (exponent lower-bound analysis); heights and strengths are returned in one order; the random-restart "
+              "loop replaces (cost, grouping) together or not at all; allocation dtypes; no hidden state. Optimality of "
               "the grouping and what the optimiser converges to are not decided."),
         note="Trusted: numpy.digitize / numpy.arange length contracts; scipy.optimize.minimize honours fun/x0/args/bounds; L positive integer."),
     "C15": dict(
         category="other", design="DESIGN.md §3 C15",
         technique="static analysis: per-path normal forms of the centroiders; homogeneity-degree queries; branch-sibling agreement; comparison with oracle definitions",
         text=("Scale invariance of every centroider on every rank path (degree 0 in the image), agreement of the 2-D and N-D threshold "
-              "transforms and per-frame reductions (stack = frames), moment formulas and (x, y) order, rank-threshold of "
+              "transforms and per-frame reductions (stack = frames; no reduction over a whole stack where the contract is per frame), moment formulas and (x, y) order, rank-threshold of "
               "brightest_pixel, cross-correlation formula and padding offset (both components), no array carried from one frame to the next "
               "through a second name, quad-cell numerator. Exact shift equivariance and "
               "correlation peak position are not decided. Known findings: quadCell not normalised; centre_of_gravity 2-D vs N-D."),
@@ -109,7 +111,7 @@ CLAIMS.update({
         technique="static analysis: circle reduced to a normal form and compared with the indicator definition; selection/fill-factor normal forms; loop-nest and counter rules for the scatter",
         text=("circle == indicator of the closed disc on half-integer pixel centres for both origins (so nesting/symmetry/shift "
               "covariance follow); selection keeps a cell iff mean >= threshold and reports that mean; cell bounds agree between "
-              "selection and fill-factor function; scatter is row-major with a counter advancing once per active cell. The area "
+              "selection and fill-factor function; scatter is row-major (logical, never memory order) with a counter advancing once per active cell. The area "
               "limit is not decided."),
         note="Trusted: oracle text in sa/props/c14.py; numpy boolean-mask order is row-major; size integer."),
     "C16": dict(
@@ -117,7 +119,7 @@ CLAIMS.update({
         technique="static analysis: normal forms of binning (summarised loops), zoom paths and radial reductions decomposed; library constructors resolved in the installed SciPy and inspected for an unconditional raise",
         text=("Binning = strided accumulation over the last two axes with one n (both rank branches); both zoom entry points use a "
               "callable spline constructor on pixel-index nodes, evaluate on linspace(0, n-1, new), split complex data as "
-              "f(real)+1j f(imag); azimuthal average is a convex combination over nested ring masks with full allocation coverage; "
+              "f(real)+1j f(imag) with the same arguments (also through a shared recursive helper); azimuthal average is a convex combination over nested ring masks with full allocation coverage; "
               "encircled energy starts at (0,0), is normalised once by the total, uses growing nested apertures. Spline exactness and "
               "monotone interpolation are not decided."),
         note="Trusted: installed SciPy sources; C14.M1; RectBivariateSpline(s=0) interpolates."),
@@ -139,7 +141,7 @@ CLAIMS.update({
         technique="static analysis: abstract interpretation of both assembly copies with loop variables and attributes symbolic (affine block bounds, tiling, block sources, no index permutation, scale normal form); per-pair functions compared with the finite-difference definition as normal forms; projection formulas compared with their geometric definition",
         text=("Decides: the four block updates tile the (i, j) block (all x then all y per sensor); each quadrant receives the slope-kind "
               "covariance it stands for, with no flip/transpose between per-pair result and block; compute_covariance_xx/yy/xy equal "
-              "the finite-difference expansion in the structure function; separations s[i,j] = p2[j]-p1[i]; scale lambda_i lambda_j/"
+              "the finite-difference expansion in the structure function, which is one element-wise von Karman law; separations s[i,j] = p2[j]-p1[i]; scale lambda_i lambda_j/"
               "(8 pi^2 d_i d_j) with projected diameters; r0^(-5/3); zero-initialised += accumulation over all layers; sub-aperture "
               "centres and cone/offset projection formulas on copies; lower block triangle + OR-mirror. Positive semi-definiteness "
               "and rounding are not decided. Known findings: unequal projected diameters (xx/yy term, yx block)."),
@@ -203,7 +205,8 @@ CLAIMS.update({
               "table, with bilinear 'nearest'-edge interpolation; make_kl renders mode i as pol2car(geometry, gkl_sfi(base, i), mask) for all "
               "nmax modes and returns base['evals']; gkl_sfi is radial column x azimuthal row of the same index; azimuthal rows are 1, cos, sin "
               "of the paired orders; piston_orth is Cannon's eq. 19 matrix; equal-area radial grid; selection by argsort(-eigenvalues); quadrature "
-              "weight and eigenvector scalings sqrt(nr), sqrt(2 nr). NOT decided (most of the property): orthonormality to grid accuracy, zero "
+              "weight and eigenvector scalings sqrt(nr), sqrt(2 nr); the kernel is the azimuthal DFT (all nth samples, weight 2 pi/nth) of the structure "
+              "function of the chord length, stored symmetrically. NOT decided (most of the property): orthonormality to grid accuracy, zero "
               "mean, the diagonalised covariance, positivity and tip = tilt of the variances, the resampling error - all of which are values "
               "produced by eigh / map_coordinates at run time."),
         note=("Trusted: scipy.ndimage.map_coordinates order=1 is bilinear interpolation at fractional indices; rebin replicates; eigh returns "
